@@ -428,6 +428,26 @@ def luks_verdict():
     verdict_proof('luks')
 
 
+@proof(['C03', 'C01'], targets=[(FI, 'FileInspector.complete')],
+       assumes=['uses the spec verdicts that the verdict proofs tie to the '
+                'real observers'])
+def verdict_is_stable_once_complete():
+    """C03 no-revision, per fixed-layout class: once complete at position q
+    an inspector is complete at every later position and format_match keeps
+    its value (so a decision of the wrapper cannot change)."""
+    M = load(FI)
+    fmt = pick('format', sorted(LAYOUT))
+    S = fresh_bytes('S')
+    q = fresh_int('q', 0, len(S))
+    q1 = fresh_int('q_later', q, len(S))
+    a = put_in_state(M, fmt, S, q)
+    b = put_in_state(M, fmt, S, q1)
+    if a.complete:
+        check('stable/complete-stays-complete', b.complete)
+        check('stable/format-match-kept', b.format_match == a.format_match)
+        cover('stable/reached')
+
+
 CANARIES = [
     dict(name='qcow2-max-feature-bit-raised', prop='C02', file=FI,
          proofs=['qcow2_verdict'], old='    I_FEATURES_MAX_BIT = 4\n',
